@@ -1282,7 +1282,22 @@ pub fn generate(run_seed: u64, index: u64) -> Script {
                         let a = g.address(s.1 as u64 / 8);
                         OpSpec::Load(s.0.into(), s.1, a)
                     }
-                    17 => OpSpec::Nop,
+                    17 if g.rng.chance(1, 2) => OpSpec::Nop,
+                    17 => {
+                        // a placeholder nop, as lifters leave for direct jumps: whatever it
+                        // wraps (a branch to an address that exists in the program or not, a
+                        // store, an assignment) must not happen
+                        let inner = match g.rng.below(4) {
+                            0 => OpSpec::Branch(ExprSpec::cu(0x10_0000 + 4 * g.rng.below(40), 64)),
+                            1 => OpSpec::Branch(ExprSpec::cu(g.rng.next() & 0xffff_fff0, 64)),
+                            2 => {
+                                let s = *g.rng.pick(&SC[..8]);
+                                OpSpec::Assign(s.0.into(), s.1, g.expr(s.1, 1))
+                            }
+                            _ => OpSpec::Store(g.address(4), g.expr(32, 1)),
+                        };
+                        OpSpec::Placeholder(Box::new(inner))
+                    }
                     18 if !fault_free && g.rng.chance(1, 3) => match g.rng.below(3) {
                         0 => OpSpec::Intrinsic,
                         1 => OpSpec::IntrinsicWithLists(false),
